@@ -18,6 +18,7 @@ class Case(NamedTuple):
     origin: str
     files: dict  # relpath -> text; the main program is "main.py"
     flags: list
+    fixtures: dict = {}  # "builtins.pyi"/"typing.pyi"/... -> path below test-data/unit (only used by fixture-mode drivers)
 
 
 _SECTION = re.compile(r"^\[([a-zA-Z0-9_.\-/ ]+)\]\s*$")
@@ -60,8 +61,13 @@ def parse_test_file(path: str) -> list[Case]:
                 if fn.startswith("/") or ".." in fn:
                     continue
                 files[fn] = strip_expectations(text)
+        fixtures = {}
+        for sec in secs:
+            parts = sec.split()
+            if len(parts) == 2 and parts[0] in ("builtins", "typing", "typing_extensions", "_typeshed", "enum") and parts[1].startswith(("fixtures/", "lib-stub/")):
+                fixtures[parts[0] + ".pyi"] = parts[1]
         if "main.py" in files:
-            cases.append(Case(cur_name, os.path.basename(path), files, flags))
+            cases.append(Case(cur_name, os.path.basename(path), files, flags, fixtures))
 
     for line in lines:
         m = line.startswith("[") and _SECTION.match(line)
